@@ -22,6 +22,35 @@ PROP_EXPLANATION["C05"] = (
 )
 
 
+def split_top(s):
+    parts, depth, cur = [], 0, ""
+    for ch in s:
+        if ch == "(":
+            depth += 1
+        elif ch == ")":
+            depth -= 1
+        if ch == "," and depth == 0:
+            parts.append(cur)
+            cur = ""
+        else:
+            cur += ch
+    parts.append(cur)
+    return parts
+
+
+def origin(h: str) -> str:
+    """the grammar child a conversion-history term derives its value from"""
+    while True:
+        if h.startswith("Promo(") and h.endswith(")"):
+            h = h[6:-1]
+        elif h.startswith("Conv(") and h.endswith(")"):
+            h = split_top(h[5:-1])[-1]
+        elif h.startswith("Common(") and h[-2:] in (".0", ".1"):
+            h = split_top(h[7:-3])[int(h[-1])]
+        else:
+            return h
+
+
 def eff(r, label):
     return r.pure(label, cls="Effect")
 
@@ -252,8 +281,8 @@ def r05_4(ctx):
             ok = isinstance(node, AObj) and node.cls == ncls
             opt = (ctor(node, "arith_type") or ctor(node, "op_type")) if ok else None
             a, b = (lab(ctor(node, "a")), lab(ctor(node, "b"))) if ok else ("?", "?")
-            a_ok = a in ("items[0]", "Promo(items[0])")
-            b_ok = "items[2]" in b and "items[0]" not in b.replace("type(items[0])", "")
+            a_ok = origin(a) == "items[0]"
+            b_ok = origin(b) == "items[2]"
             ctx.check(f"compound assignment {op}", ok and isinstance(opt, EnumV) and opt.value == sym and a_ok and b_ok,
                       f"{ncls}[{sym}](target, source)", f"{node.cls if isinstance(node, AObj) else lab(node)}[{opt.value if isinstance(opt, EnumV) else opt}](a={a}, b={b})", fn_where(idx, fi))
     gm = get_grammar(ctx.env)
